@@ -191,7 +191,7 @@ Lemma small_index_complete_partial_l : forall p ops q k ef l,
 Proof.
   intros p ops q k ef l Hwf Hc Hconn Hef Hk Hs r v Hr.
   assert (Hcl : any_inactive (ix (run0 p ops)) = false).
-  { unfold class_of in Hc. destruct (entry_dead _); [discriminate|]. destruct (any_inactive _); [discriminate | auto]. }
+  { unfold class_of in Hc. destruct (HALF_PAGE <? page_use _); [discriminate|]. destruct (entry_dead _); [discriminate|]. destruct (any_inactive _); [discriminate | auto]. }
   pose proof (inv0_reached p ops Hwf Hcl) as I.
   set (w := run0 p ops) in *. set (s := ix w) in *.
   (* the node that carries row r *)
